@@ -155,6 +155,7 @@ Definition ids (l : list subentry) : list N := map se_id l.
 Definition th_sids (th : thread) : list N :=
   match th with
   | TClient _ _ (PSubsAdd se) => [se_id se]
+  | TClient _ _ (PUnsubCtx s) | TClient _ _ (PUnsubJoin s) | TClient _ _ (PUnsubIterSend s _) => [s]
   | TReducer (RNotify _ _ rest _) | TReducer (RClear rest) => ids rest
   | TReducer (RNotifySend _ _ cur rest _ _) => se_id cur :: ids rest
   | TReducer (RClearCtx s rest) | TReducer (RClearJoin s rest) | TReducer (RClearIterSend s rest _) => s :: ids rest
@@ -205,6 +206,12 @@ Ltac in_hist I :=
     rewrite ?hist_regs_app, ?cb_regs; cbn [app ev_reg reg_sid];
     repeat match goal with E : hist_regs (w_hist ?x) = _ |- context [hist_regs (w_hist ?x)] => rewrite E end));
   repeat first [apply in_or_app; right | right]; apply I.
+
+Lemma find_sub_in l s se : find_sub l s = Some se -> In s (ids l).
+Proof.
+  unfold ids. induction l as [|x r IH]; cbn; [discriminate|].
+  destruct (N.eqb_spec (se_id x) s) as [E|E]; [intros _; now left|intros F; right; auto].
+Qed.
 
 Theorem step_v w t w' : inv_v w -> step w t = Some w' -> inv_v w'.
 Proof.
@@ -258,6 +265,8 @@ Proof.
   all: try (match goal with E : w_subs _ = _ :: _ |- _ => rewrite <- E in U; in_hist I; left; exact U end).
   all: try (match goal with E : w_subs _ = _ :: _ |- _ =>
               change (In zz (ids (s0 :: l))) in U; rewrite <- E in U; in_hist I; left; exact U end).
+  all: try (match goal with F : find_sub (w_subs _) _ = Some _ |- _ =>
+              cbn [In] in U; destruct U as [<-|[]]; in_hist I; left; eapply find_sub_in; eassumption end).
   change (In zz (ids (s :: l))) in U. rewrite <- Heql in U. apply I. left. exact U.
 Qed.
 
